@@ -536,7 +536,9 @@ type ServerCase struct {
 
 var objects = []string{"nothing", "dir0700", "dir0750", "dir0755", "dir0777", "dir0000", "dir0500", "file", "fifo", "symlink-to-dir", "symlink-dangling", "dir-nobody", "dir-with-subdir", "dir0700-setgid",
 	// the other file types, owner-only: their st_mode type bits overlap S_IFDIR's (socket 0140000, block device 0060000) or not (character device 0020000)
-	"socket0700", "blockdev0700", "chardev0700", "file0600"}
+	"socket0700", "blockdev0700", "chardev0700", "file0600",
+	// owner and group that are different accounts: the identity is the OWNER's
+	"dir0700-othergroup", "dir-nobody-group0"}
 
 func runServer(c ServerCase) string {
 	fsMu.Lock()
@@ -591,6 +593,12 @@ func runServer(c ServerCase) string {
 		case "dir-nobody":
 			_ = os.Mkdir(path, 0o700)
 			_ = os.Chown(path, 65534, 65534)
+		case "dir0700-othergroup":
+			_ = os.Mkdir(path, 0o700)
+			_ = os.Chown(path, -1, 1)
+		case "dir-nobody-group0":
+			_ = os.Mkdir(path, 0o700)
+			_ = os.Chown(path, 65534, 0)
 		case "dir-with-subdir":
 			_ = os.Mkdir(path, 0o700)
 			_ = os.Mkdir(filepath.Join(path, "sub"), 0o700)
@@ -621,7 +629,7 @@ func runServer(c ServerCase) string {
 	if classify(announced) == mustReject {
 		return fmt.Sprintf("the server announced a path its own client would have to reject: %q", announced)
 	}
-	realDir := c.Object == "dir0700" || c.Object == "dir-nobody"
+	realDir := c.Object == "dir0700" || c.Object == "dir-nobody" || c.Object == "dir0700-othergroup" || c.Object == "dir-nobody-group0"
 	eitherObj := c.Object == "dir-with-subdir" || c.Object == "dir0700-setgid"
 	shouldSucceed := c.Result == 0 && realDir
 	ok := serr == nil
@@ -636,7 +644,7 @@ func runServer(c ServerCase) string {
 		if u, err := user.Current(); err == nil {
 			wantUser = u.Username
 		}
-		if c.Object == "dir-nobody" {
+		if c.Object == "dir-nobody" || c.Object == "dir-nobody-group0" {
 			if u, err := user.LookupId("65534"); err == nil {
 				wantUser = u.Username
 			}
